@@ -155,6 +155,19 @@ def run_job(job):
                 stats["roundtrips"] += 1
                 if not (r2.ok and e.eq):
                     viol.append({"sig": "C10 %s decode(encode(o)) != o" % kind, "what": "%s %s" % (su, kind)})
+                # encoding followed by decoding is the identity also for the serde encodings of the same object
+                for codec in ("bincode", "json"):
+                    e1 = s.ser("a", codec)
+                    evals += 1
+                    if not e1.ok:
+                        viol.append({"sig": "C10 %s does not serialize via %s" % (kind, codec), "what": "%s: %s" % (su, e1.get("err"))})
+                        continue
+                    d1 = s.de(kind, e1.data if codec == "json" else bytes.fromhex(e1.data), codec=codec, out="c")
+                    stats["roundtrips"] += 1
+                    if not d1.ok:
+                        viol.append({"sig": "C10 %s: decode(encode(o)) fails via %s" % (kind, codec), "what": "%s: %s" % (su, d1.get("err"))})
+                    elif bytes.fromhex(d1.re) != v or not s.cmd("eq", a="a", b="c").eq:
+                        viol.append({"sig": "C10 %s: decode(encode(o)) != o via %s" % (kind, codec), "what": "%s: native form %s -> %s" % (su, v.hex(), d1.re)})
                 # (a) all lengths
                 other = worlds[(wi + 1) % len(worlds)][kind]
                 maxext = 64 if (tier == "thorough" or wi == 0) else 8
